@@ -586,3 +586,188 @@ func contentWriters(c *Ctx, rule string) {
 	}
 	c.Floor(rule+"/stores", n, 4)
 }
+
+// getTable: the exact-path lookup (*Tree).Get, per node: the path ends here => this node; otherwise a
+// branch that has the child path[0] => that child's Get with path[1:]; anything else => nil.  GetLeaf and
+// GetLeafValue are Get followed by a conversion / the nil-safe Value.
+func getTable(c *Ctx, rule string) {
+	P := c.P
+	get := P.Method("ctree", "Tree", "Get")
+	getLeaf := P.Method("ctree", "Tree", "GetLeaf")
+	getLV := P.Method("ctree", "Tree", "GetLeafValue")
+	fLB := P.Field("ctree", "Tree", "leafBranch")
+	if get == nil || getLeaf == nil || getLV == nil || fLB == nil || len(get.Params) != 2 {
+		c.Unresolved(rule, "ctree.(*Tree).Get / GetLeaf / GetLeafValue / Tree.leafBranch")
+		return
+	}
+	c.Rule(rule, "(*Tree).Get, per node (1 and 2 elements left): the path ends here => this very node; a branch with the child path[0] => the result of that child's Get with path[1:]; a branch without it, a leaf or an empty node with path left => nil (a value is found only under exactly the path it was stored at). GetLeaf / GetLeafValue return what Get(path) of the same path finds (as a leaf handle / through the nil-safe Value)")
+	c.Analysed(fnName(get))
+	tP, pathP := ssa.Value(param(get, 0)), ssa.Value(param(get, 1))
+	cls := func(e *PPA, st *State, rv RV) string {
+		r := e.Resolve(st, rv)
+		switch v := r.V.(type) {
+		case *ssa.Call:
+			if la, ok := lenArg(v); ok && e.Resolve(st, RV{r.F, la}).V == pathP {
+				return "PLEN"
+			}
+		case *ssa.BinOp:
+			if v.Op != token.EQL && v.Op != token.NEQ {
+				return ""
+			}
+			neg := ""
+			if v.Op == token.NEQ {
+				neg = "!"
+			}
+			for _, pr := range [][2]ssa.Value{{v.X, v.Y}, {v.Y, v.X}} {
+				if isNilConst(pr[1]) {
+					x := e.Resolve(st, RV{r.F, pr[0]})
+					if lk, ok := x.V.(*ssa.Lookup); ok && isNamed(lk.X.Type(), "ctree", "branch") {
+						return neg + "NOCHILD"
+					}
+					if ex, ok := x.V.(*ssa.Extract); ok && ex.Index == 0 {
+						if lk, ok := ex.Tuple.(*ssa.Lookup); ok && isNamed(lk.X.Type(), "ctree", "branch") {
+							return neg + "NOCHILD"
+						}
+					}
+					if loadOfField(x.V, fLB) {
+						return neg + "EMPTY"
+					}
+				}
+			}
+		case *ssa.Extract:
+			if ta, ok := v.Tuple.(*ssa.TypeAssert); ok && v.Index == 1 && isNamed(ta.AssertedType, "ctree", "branch") {
+				return "ISBRANCH"
+			}
+			if lk, ok := v.Tuple.(*ssa.Lookup); ok && v.Index == 1 && isNamed(lk.X.Type(), "ctree", "branch") {
+				return "!NOCHILD"
+			}
+		}
+		return ""
+	}
+	describe := func(rv RV) string {
+		switch v := rv.V.(type) {
+		case *ssa.Const:
+			if v.Value == nil {
+				return "nil"
+			}
+		case *ssa.Parameter:
+			if ssa.Value(v) == tP {
+				return "this node"
+			}
+		case *ssa.Call:
+			if staticCallee(&v.Call) != get {
+				break
+			}
+			args := refArgs(&v.Call)
+			child := "other node " + Expr(args[0])
+			if lk, ok := args[0].(*ssa.Lookup); ok && isNamed(lk.X.Type(), "ctree", "branch") {
+				if u, ok := lk.Index.(*ssa.UnOp); ok {
+					if ia, ok := u.X.(*ssa.IndexAddr); ok && frameResolve(RV{rv.F, ia.X}).V == pathP {
+						if k, okc := constInt(ia.Index); okc && k == 0 {
+							child = "path[0] child"
+						}
+					}
+				}
+			}
+			if ex, ok := args[0].(*ssa.Extract); ok && ex.Index == 0 {
+				if lk, ok := ex.Tuple.(*ssa.Lookup); ok && isNamed(lk.X.Type(), "ctree", "branch") {
+					if u, ok := lk.Index.(*ssa.UnOp); ok {
+						if ia, ok := u.X.(*ssa.IndexAddr); ok && frameResolve(RV{rv.F, ia.X}).V == pathP {
+							if k, okc := constInt(ia.Index); okc && k == 0 {
+								child = "path[0] child"
+							}
+						}
+					}
+				}
+			}
+			pth := "other path " + Expr(args[1])
+			if sl, ok := args[1].(*ssa.Slice); ok && frameResolve(RV{rv.F, sl.X}).V == pathP && sl.High == nil && sl.Low != nil {
+				if k, okc := constInt(sl.Low); okc && k == 1 {
+					pth = "path[1:]"
+				}
+			}
+			return "Get of " + child + " with " + pth
+		}
+		return "other: " + Expr(rv.V)
+	}
+	type row struct {
+		name  string
+		plen  int64
+		kind  string
+		child bool
+		want  string
+	}
+	rows := []row{
+		{"path ends at a branch", 0, "branch", false, "this node"},
+		{"path ends at a leaf", 0, "leaf", false, "this node"},
+		{"path ends at an empty node", 0, "empty", false, "this node"},
+	}
+	for _, pl := range []int64{1, 2} {
+		rows = append(rows,
+			row{fmt.Sprintf("%d element(s) left at a branch, child present", pl), pl, "branch", true, "Get of path[0] child with path[1:]"},
+			row{fmt.Sprintf("%d element(s) left at a branch, child absent", pl), pl, "branch", false, "nil"},
+			row{fmt.Sprintf("%d element(s) left at a leaf", pl), pl, "leaf", false, "nil"},
+			row{fmt.Sprintf("%d element(s) left at an empty node", pl), pl, "empty", false, "nil"})
+	}
+	for _, rw := range rows {
+		b := map[string]bool{"ISBRANCH": rw.kind == "branch", "EMPTY": rw.kind == "empty", "NOCHILD": !rw.child, "!EMPTY": rw.kind != "empty", "!NOCHILD": rw.child}
+		at := &Atoms{Class: cls, Bool: b, Int: map[string]int64{"PLEN": rw.plen}}
+		e := &PPA{Cond: at.Cond, MaxVisits: 2}
+		e.Run(get)
+		c.Paths += len(e.Paths)
+		c.Scen++
+		n := 0
+		for i := range e.Paths {
+			p := &e.Paths[i]
+			if p.End != "return" || len(p.Rets) != 1 {
+				continue
+			}
+			n++
+			got := describe(p.Rets[0])
+			c.Check(got == rw.want, rule, fnName(get), rw.name, P.Pos(get.Pos()), fmt.Sprintf("returns %s, want %s", got, rw.want))
+		}
+		c.Check(n == 1, rule, fnName(get), rw.name+" (decided)", P.Pos(get.Pos()), fmt.Sprintf("%d returning paths (1 = every condition folded)", n))
+	}
+	// GetLeaf / GetLeafValue: exactly one Get call, on the receiver, with the path parameter; the result derives from it
+	for _, f := range []*ssa.Function{getLeaf, getLV} {
+		c.Analysed(fnName(f))
+		e := &PPA{NoAuto: true, Watch: func(ev *Ev) bool { return ev.Label == "call:"+fnName(get) }}
+		e.Run(f)
+		c.Paths += len(e.Paths)
+		n := 0
+		for i := range e.Paths {
+			p := &e.Paths[i]
+			if p.End != "return" || len(p.Rets) != 1 {
+				continue
+			}
+			n++
+			gi := p.Index(0, lbl("call:"+fnName(get)))
+			ok := gi >= 0 && p.Count(lbl("call:"+fnName(get))) == 1 && len(p.Trace[gi].Args) == 2 &&
+				p.Trace[gi].Args[0].V == ssa.Value(param(f, 0)) && p.Trace[gi].Args[1].V == ssa.Value(param(f, 1))
+			// the result is the Get result converted, or Value() of it
+			from := false
+			if ok {
+				r := p.Rets[0].V
+				for k := 0; k < 4; k++ {
+					switch x := r.(type) {
+					case *ssa.ChangeType:
+						r = x.X
+						continue
+					case *ssa.Convert:
+						r = x.X
+						continue
+					case *ssa.Call:
+						if calleeName(&x.Call) == "(*ctree.Tree).Value" && len(x.Call.Args) == 1 {
+							r = x.Call.Args[0]
+							continue
+						}
+					}
+					break
+				}
+				from = r == p.Trace[gi].In.(ssa.Value)
+			}
+			c.Check(ok && from, rule, fnName(f), "returns what Get(path) of the receiver finds", P.Pos(f.Pos()), "path: "+p.String())
+		}
+		c.Floor(rule+"/"+fnName(f), n, 1)
+	}
+}
